@@ -236,8 +236,8 @@ _ADDED = {
     "C20": "reset storms: a well-formed peer absurdly far away, then 3-24 observations of one peer with an extreme finite error",
     "C22": "requests that meet an unwritable keyring file (its directory is gone for the duration of the request; 15 % of requests)",
     "C23": "successful replies that carry a truncation message; replies with omitted fields",
-    "C24": "pipelining clients: 2-5 requests (handshake, auth, members, stats) written in one piece",
-    "C25": "stream requests re-using the sequence number of an open stream; filters and event names that contain the separator",
+    "C24": "pipelining clients: 2-5 requests (handshake, auth, members, stats) written in one piece; in 1/5 of the runs the sequence runs next to a second, authenticated client that monitors the log at ERR level and has stopped reading while the agent logs 3-700 error lines (its 512-slot queue overflows), with the IPC layer's own logger feeding the monitored log writer as the agent command wires it",
+    "C25": "stream requests re-using the sequence number of an open stream; filters and event names that contain the separator; all five member event kinds (join, failed, update, and a pruning force-leave of a failed member: leave then reap) with filters naming them",
     "C29": "the underlying output reports an error for one line; monitors attached a second time while attached",
     "C34": "the moment the node logs its shutdown is recorded; dials are attributed to the calling task",
     "C35": "sends to one member fail while a reply is relayed; members announce new tags between replies",
